@@ -80,8 +80,20 @@ def _post(sk, entry, sig, sigencode, data=None, digest=None, number=None, hashfu
             verifiers.append(("vk via " + how_vk, sigs.reload_vk(vk, how_vk)))
             ctx.case("reload.vk", key="%s|%s" % (curve.name, how_vk))
         if how_sk != "same":
-            verifiers.append(("sk via %s -> vk" % how_sk, sigs.reload_sk(sk, how_sk).verifying_key))
+            sk2 = sigs.reload_sk(sk, how_sk)
+            verifiers.append(("sk via %s -> vk" % how_sk, sk2.verifying_key))
             ctx.case("reload.sk", key="%s|%s" % (curve.name, how_sk))
+            # the re-loaded signing key, asked to sign with ITS default hash (handed to the loader), must produce what the
+            # original verifying key accepts with its default hash
+            _state["depth"] += 1          # nested signer calls: reference check only
+            try:
+                sig2 = sk2.sign_deterministic(b"reloaded key signs")
+                if vk.verify(sig2, b"reloaded key signs") is not True:
+                    problems.append("signature made by the key re-loaded via %s (default hash) is not accepted by the original key" % how_sk)
+            except Exception as e:
+                problems.append("signing with the key re-loaded via %s and verifying with the original: %s: %s" % (how_sk, type(e).__name__, e))
+            finally:
+                _state["depth"] -= 1
     except Exception as e:
         problems.append("re-loading the key (%s/%s) raised %s: %s" % (how_vk, how_sk, type(e).__name__, e))
     for nm, v in verifiers:
